@@ -87,13 +87,13 @@ theorem stopsM_tablerowAfter (cols i l : Nat) : StopsM (tablerowAfter cols i l) 
   · exact stopsM_write _
   · exact stopsM_pure _
 
-theorem stopsM_evalCond (P : Prims) (t : CondT) : StopsM (evalCond P t) := by
+theorem stopsM_evalCond (P : Prims) (path : Bytes) (t : CondT) : StopsM (evalCond P path t) := by
   unfold evalCond
   refine stopsM_bind stopsM_getEnv (fun env => ?_)
   cases t with
   | always => exact stopsM_pure _
-  | expr e => exact stopsM_bind (stopsM_ofRes _) (fun _ => stopsM_pure _)
-  | notExpr e => exact stopsM_bind (stopsM_ofRes _) (fun _ => stopsM_pure _)
+  | expr line e => exact stopsM_wrapFailAt _ _ (stopsM_bind (stopsM_ofRes _) (fun _ => stopsM_pure _))
+  | notExpr line e => exact stopsM_wrapFailAt _ _ (stopsM_bind (stopsM_ofRes _) (fun _ => stopsM_pure _))
 
 theorem stopsM_intModifier (P : Prims) (e : Option Expr) (loc : Loc) : StopsM (intModifier P e loc) := by
   unfold intModifier
@@ -250,17 +250,17 @@ theorem stops_renderBranches (c : RCtx) (hc : IncOk c) : ∀ bs : List (CondT ×
   | [] => by unfold renderBranches; exact stopsM_pure _
   | (t, body) :: rest => by
     unfold renderBranches
-    refine stopsM_bind (stopsM_evalCond _ _) (fun b => ?_)
+    refine stopsM_bind (stopsM_evalCond _ _ _) (fun b => ?_)
     split
     · exact stops_renderBlockBody c hc body
     · exact stops_renderBranches c hc rest
 theorem stops_renderCases (c : RCtx) (hc : IncOk c) (sel : GoVal) :
-    ∀ cs : List (Option (List Expr) × List Node), StopsM (renderCases c sel cs)
+    ∀ cs : List (Option (Nat × List Expr) × List Node), StopsM (renderCases c sel cs)
   | [] => by unfold renderCases; exact stopsM_pure _
   | (none, body) :: _ => by unfold renderCases; exact stops_renderBlockBody c hc body
-  | (some es, body) :: rest => by
+  | (some (line, es), body) :: rest => by
     unfold renderCases
-    refine stopsM_bind (stops_whenMatches c sel es) (fun hit => ?_)
+    refine stopsM_bind (stopsM_wrapFailAt _ _ (stops_whenMatches c sel es)) (fun hit => ?_)
     split
     · exact stops_renderBlockBody c hc body
     · exact stops_renderCases c hc sel rest
